@@ -86,6 +86,7 @@ type Config struct {
 	ModuleList   bool     `json:"module_list,omitempty"`
 	HTTPS        bool     `json:"https,omitempty"`
 	Providers    []string `json:"providers,omitempty"`
+	SetupsFirst  bool     `json:"setups_first,omitempty"`   // the 2FA / expire Setup() calls run before ab.Init()
 	Mailer       string   `json:"mailer,omitempty"`         // "" harness mailbox | "log" defaults.LogMailer | "smtp" defaults.SMTPMailer against a loopback server
 	ShippedLog   bool     `json:"shipped_logger,omitempty"` // defaults.Logger instead of the capturing logger
 
@@ -417,23 +418,39 @@ func NewWorld(cfg Config) (w *World, err error) {
 		}
 	}
 
+	setups := func() error {
+		for _, s := range cfg.Setups {
+			var err error
+			switch s {
+			case "expire":
+				err = expire.Setup(ab)
+			case "totp":
+				err = (&totp2fa.TOTP{Authboss: ab}).Setup()
+			case "sms":
+				err = (&sms2fa.SMS{Authboss: ab, Sender: w.SMS}).Setup()
+			case "recovery":
+				err = (&twofactor.Recovery{Authboss: ab}).Setup()
+			default:
+				err = fmt.Errorf("unknown setup %q", s)
+			}
+			if err != nil {
+				return err
+			}
+		}
+		return nil
+	}
+	// The documentation does not order the Setup() calls relative to Init():
+	// both orders are valid configurations.
+	if cfg.SetupsFirst {
+		if err := setups(); err != nil {
+			return nil, err
+		}
+	}
 	if err := ab.Init(cfg.Modules...); err != nil {
 		return nil, err
 	}
-	for _, s := range cfg.Setups {
-		switch s {
-		case "expire":
-			err = expire.Setup(ab)
-		case "totp":
-			err = (&totp2fa.TOTP{Authboss: ab}).Setup()
-		case "sms":
-			err = (&sms2fa.SMS{Authboss: ab, Sender: w.SMS}).Setup()
-		case "recovery":
-			err = (&twofactor.Recovery{Authboss: ab}).Setup()
-		default:
-			err = fmt.Errorf("unknown setup %q", s)
-		}
-		if err != nil {
+	if !cfg.SetupsFirst {
+		if err := setups(); err != nil {
 			return nil, err
 		}
 	}
